@@ -3116,6 +3116,8 @@ class Set(Collection):
             if added: added |= to_add
             else: setdata.added = to_add  # added may be None
         if to_remove:
+            added = setdata.added      # both may have been rebound above
+            removed = setdata.removed
             if added: (to_remove, setdata.added) = (to_remove - added, added - to_remove)
             if removed: removed |= to_remove
             else: setdata.removed = to_remove  # removed may be None
